@@ -149,6 +149,30 @@ pub fn consume(resp: Response, plan: &ReadPlan, extra: &[usize], payload_len: us
                 Err(e) => Consumed::Helper(Err(format!("{e:?}"))),
             }
         }
+        ReadPlan::WriteToShort(max) => {
+            struct Short(Vec<u8>, usize);
+            impl std::io::Write for Short {
+                fn write(&mut self, b: &[u8]) -> std::io::Result<usize> {
+                    let n = b.len().min(self.1.max(1));
+                    self.0.extend_from_slice(&b[..n]);
+                    Ok(n)
+                }
+                fn flush(&mut self) -> std::io::Result<()> {
+                    Ok(())
+                }
+            }
+            let mut sink = Short(Vec::new(), *max);
+            match resp.write_to(&mut sink) {
+                Ok(n) => {
+                    if n as usize != sink.0.len() {
+                        Consumed::Helper(Err(format!("write_to returned {n} but the sink received {} bytes", sink.0.len())))
+                    } else {
+                        Consumed::Helper(Ok(sink.0))
+                    }
+                }
+                Err(e) => Consumed::Helper(Err(format!("{e:?}"))),
+            }
+        }
         ReadPlan::TextUtf8 => Consumed::Text(resp.text_utf8().map_err(|e| format!("{e:?}"))),
         ReadPlan::TextReader(sizes) => {
             let sizes = crate::gen::effective_sizes(sizes, payload_len);
